@@ -147,7 +147,58 @@ def hint_mults(V, Zrep, unknowns, params):
     return mults
 
 
+SWEEP_TOPOLOGIES = {
+    # name -> (components, ground, ('port', a, b) | ('element', id), closed form as a function of (p, jw) or None)
+    'series_rlc': ([('R1', 'n1', 'n2', 'R'), ('L1', 'n2', 'n3', 'L'), ('C1', 'n3', 'n0', 'C')], 'n0', ('port', 'n1', 'n0'),
+                   lambda p, jw: ('Z', p['R1']['R'] + jw * p['L1']['L'] + 1 / (jw * p['C1']['C']))),
+    'parallel_rlc': ([('R1', 'n1', 'n0', 'R'), ('L1', 'n1', 'n0', 'L'), ('C1', 'n0', 'n1', 'C')], 'n0', ('port', 'n0', 'n1'),
+                     lambda p, jw: ('Y', 1 / p['R1']['R'] + 1 / (jw * p['L1']['L']) + jw * p['C1']['C'])),
+    'seen_by_r': ([('R1', 'n1', 'n0', 'R'), ('L1', 'n1', 'n2', 'L'), ('C1', 'n2', 'n0', 'C')], 'n0', ('element', 'R1'),
+                  lambda p, jw: ('Z', jw * p['L1']['L'] + 1 / (jw * p['C1']['C']))),
+    'source_rc': ([('V1', 'n1', 'n0', 'Vdc'), ('R1', 'n1', 'n2', 'R'), ('C1', 'n2', 'n0', 'C')], 'n0', ('port', 'n2', 'n0'),
+                  lambda p, jw: ('Y', 1 / p['R1']['R'] + jw * p['C1']['C'])),
+    'rl_dc': ([('R1', 'n1', 'n2', 'R'), ('L1', 'n2', 'n0', 'L')], 'n0', ('port', 'n1', 'n0'),
+              lambda p, jw: ('Z', p['R1']['R'] + jw * p['L1']['L'])),
+}
+
+
+def execute_sweep(cfg, V):
+    """Circuit.impedance wrappers over a frequency sweep: entry i of the result belongs to frequency i of the sweep as listed"""
+    from harness import cirlib
+    r = cirlib.repo(); cimp = r['cimp']; na = r['na']; cct = r['cct']
+    comps, ground, what, closed = SWEEP_TOPOLOGIES[cfg['topology']]
+    circuit, params = cirlib.build_circuit({'components': comps, 'ground': ground}, V)
+    ws = []
+    for k, tag in enumerate(cfg['sweep']):
+        if isinstance(tag, str): ws.append(V.val(tag, 'pos'))          # symbolic frequency (repeated tags repeat the frequency)
+        else: ws.append(tag)
+    def wrapper(w):
+        if what[0] == 'port': return cimp.open_circuit_impedance(circuit, V.label(what[1]), V.label(what[2]), w=w)
+        return cimp.element_impedance(circuit, V.label(what[1]), w=w)
+    def core_at(w0):
+        net = cct.transform_circuit(circuit, w0)
+        if what[0] == 'port': return na.open_circuit_impedance(net, V.label(what[1]), V.label(what[2]))
+        return na.element_impedance(net, V.label(what[1]))
+    Z = wrapper(list(ws) if V.sym else np.array(ws, dtype=float))
+    obs = [Ob('one value per listed frequency', 0 if len(Z) == len(ws) else 1)]
+    if len(Z) != len(ws): return obs
+    j = jval(V)
+    for i, w0 in enumerate(ws):
+        Zi = Z[i]
+        Zc = core_at(w0)
+        obs.append(Ob(f'sweep entry {i} is the impedance at the {i}-th listed frequency', Zi - Zc, [Zc, 1]))
+        if not (isinstance(w0, (int, float)) and w0 == 0):
+            kind, val = closed(params, j * w0)
+            if kind == 'Z': obs.append(Ob(f'sweep entry {i} follows jwL, 1/(jwC) (closed form)', Zi - val, [val, 1]))
+            else: obs.append(Ob(f'sweep entry {i} follows jwL, 1/(jwC) (closed form, admittance)', Zi * val - 1, [1]))
+    if cfg.get('dc') and cfg['topology'] == 'rl_dc':
+        Rdc = cimp.open_circuit_dc_resistance(circuit, V.label(what[1]), V.label(what[2]))
+        obs.append(Ob('dc resistance', Rdc - params['R1']['R'], [params['R1']['R']]))
+    return obs
+
+
 def execute(cfg, V):
+    if cfg.get('mode') == 'sweep': return execute_sweep(cfg, V)
     r = netlib.repo(); na = r['na']; bpa = r['bpa']
     net, params = build(cfg, V)
     mode = cfg['mode']
@@ -215,6 +266,14 @@ def mods():
 
 def worker(cfg):
     res = {'cfg': cfg, 'key': json.dumps(cfg, sort_keys=True)}
+    if cfg.get('mode') == 'sweep':
+        from harness import cirlib
+        out = sx.run_symbolic(execute, cfg, cirlib.patched_modules(), rounds=1, seed=driver.seed_of(), simplify=True)
+        for v in out['violations']: v['sig'].update({'mode': 'sweep', 'topology': cfg['topology']}); v['pid'] = PID
+        res.update({k: out[k] for k in ('paths', 'obligations', 'discharged', 'queries', 'violations', 'inconclusive', 'out_of_bound')})
+        res['solver_s'] = out['solver_s']
+        res['sample'] = dict(cfg, obligations=out['obligations'], discharged=out['discharged'])
+        return res
     out = sx.run_symbolic(execute, cfg, mods(), rounds=0, seed=driver.seed_of())
     for v in out['violations']:
         kinds = sorted({b[3] for b in cfg['branches']})
@@ -267,6 +326,11 @@ def configs(tier, seed):
                 if any(k[3] in ('V', 'I', 'VZ', 'IY') for k in br) and tb.well_posed([(i, p, q, {'R': 'Z', 'Lz': 'Z', 'G': 'Y', 'Cy': 'Y'}.get(k, k)) for i, p, q, k in br], ref):
                     for a, b in itertools.combinations(nodes, 2):
                         cfgs.append(dict(c, mode='thevenin', a=a, b=b))
+    sweeps = [['wa', 'wb', 'wc'], ['wa', 'wb', 'wa'], [3.0, 0.5, 2.0, 0.5], [7.0, 1.0], [1.0, 4.0, 2.0, 3.0]] + ([['wa', 'wb', 'wc', 'wd'], [5.0, 4.0, 3.0, 2.0, 1.0], ['wa', 2.0, 'wb']] if tier == 'thorough' else [])
+    for topo in SWEEP_TOPOLOGIES:
+        for sw in sweeps:
+            cfgs.append({'mode': 'sweep', 'topology': topo, 'sweep': sw})
+    cfgs.append({'mode': 'sweep', 'topology': 'rl_dc', 'sweep': [2.0, 0, 1.0], 'dc': True})
     ports = [c for c in cfgs if c['mode'] == 'port' and c['a'] != c['b'] and port_problem(c, c['a'], c['b'])[0] == 'solve']
     twins = [dict(c, twin=True) for c in rng.sample(ports, min(10, len(ports)))]
     return cfgs + twins, None
@@ -277,17 +341,18 @@ def main(tier):
     rep = driver.Report(PID, tier)
     cfgs, _ = configs(tier, driver.seed_of())
     with driver.FnTrace() as ft:
+        driver.guarded(worker)(dict(next(c for c in cfgs if c['mode'] == 'sweep')))
         for m in ('port', 'element', 'thevenin'):
             c0 = next((c for c in cfgs if c['mode'] == m and len(c['branches']) >= 3), None)
             if c0: driver.guarded(worker)(dict(c0))
     rep.functions |= ft.seen
     driver.run_pool(driver.guarded(worker), cfgs, rep, chunksize=8, progress_every=10000)
     return rep.finish(
-        explanation='bounded symbolic verification: open_circuit_impedance / element_impedance / open_circuit_voltage / short_circuit_current / Thevenin and Norton wrappers are executed on symbolic positive-real and purely reactive element values; np.linalg.inv and np.linalg.solve are contract stubs; the reported impedance is shown by z3 (QF_LRA certificate with product multipliers) to equal phi(a)-phi(b) of an independent tableau of the source-free network with a unit test current, for all values; identical nodes give 0, disconnected ports must not give a finite number; Isc*Zth = Voc and the equivalent-source wrappers are checked as identities on the reported values',
+        explanation='bounded symbolic verification: open_circuit_impedance / element_impedance / open_circuit_voltage / short_circuit_current / Thevenin and Norton wrappers are executed on symbolic positive-real and purely reactive element values; np.linalg.inv and np.linalg.solve are contract stubs; the reported impedance is shown by z3 (QF_LRA certificate with product multipliers) to equal phi(a)-phi(b) of an independent tableau of the source-free network with a unit test current, for all values; identical nodes give 0, disconnected ports must not give a finite number; Isc*Zth = Voc and the equivalent-source wrappers are checked as identities on the reported values; the Circuit.impedance sweep wrappers (open_circuit_impedance, element_impedance, dc resistance) are executed on RLC circuits over sweeps of symbolic (listed unsorted, with repeats) and concrete shuffled frequencies: entry i equals the network-level impedance at the i-th listed frequency and the closed form R + jwL + 1/(jwC) (series / parallel composition)',
         assumptions=['exact field arithmetic', 'np.linalg.inv(M) returns W with M W = W M = I; np.linalg.solve contract stub',
                      'values: resistances/conductances positive real, reactive elements purely imaginary with one sign per configuration (no L-C resonance cancellation inside one configuration)',
                      'ports whose source-free component has a structurally singular tableau are skipped; Thevenin/Norton only on structurally well-posed networks',
                      'the load-attachment formula V = Voc*Z_L/(Zth+Z_L) is the mathematical consequence of Zth and Voc being exact (not separately discharged)'],
-        bounds={'configurations': 'all connected labelled multigraphs with (nodes,branches) in ' + str([(a, b) for a, b, c in ([(2, 1, 0), (2, 2, 0), (3, 2, 0)] if tier == 'quick' else [(2, 1, 0), (2, 2, 0), (2, 3, 0), (3, 2, 0), (3, 3, 0)])]) + ' over 10 kinds; seeded samples for larger sizes',
+        bounds={'frequency sweeps': '5 RLC topologies x sweeps of 2-5 frequencies (symbolic distinct / repeated, concrete shuffled, w = 0)', 'configurations': 'all connected labelled multigraphs with (nodes,branches) in ' + str([(a, b) for a, b, c in ([(2, 1, 0), (2, 2, 0), (3, 2, 0)] if tier == 'quick' else [(2, 1, 0), (2, 2, 0), (2, 3, 0), (3, 2, 0), (3, 3, 0)])]) + ' over 10 kinds; seeded samples for larger sizes',
                 'ports': 'every ordered node pair and every element; every reference node for <= 3 branches in thorough, one seeded reference otherwise'},
         trusted=['z3 QF_LRA', 'symx executor', 'oracle in harness/C06.py'])
